@@ -12,6 +12,8 @@ use std::io::Write as _;
 use std::panic::{AssertUnwindSafe, catch_unwind};
 use verif_harness::{Rng, arg};
 
+include!("colls_extras.inc.rs");
+
 thread_local! {
     static DROPS: RefCell<Vec<u32>> = const { RefCell::new(Vec::new()) };
     static DROP_PANIC: RefCell<HashSet<u32>> = RefCell::new(HashSet::new());
@@ -326,6 +328,37 @@ fn overflow_probe(r: &mut Rng) -> Vec<String> {
         }};
     }
     match r.below(3) { 0 => probe!(u64, |i| i as u64), 1 => probe!(u8, |i| i as u8), _ => probe!([u32; 3], |i| [i as u32; 3]) }
+    // the other growable collections: a request whose size computation overflows is an error, never a
+    // panic, never "success", and leaves length and contents alone (debug builds would otherwise panic
+    // with "attempt to add with overflow", release builds wrap and report success)
+    macro_rules! probe_other {
+        ($name:expr, $vty:ty, $new:path, $bor:tt, $val:expr, $t:ty) => {{
+            let mut b2: Bump = Bump::new();
+            let mut v: $vty = probe_other!(@mk $new, $bor, b2);
+            for _ in 0..n { v.push($val); }
+            let es = core::mem::size_of::<$t>().max(1);
+            let huge: [usize; 5] = [usize::MAX, usize::MAX - n + 1, usize::MAX / es, (1usize << 62) + 3, isize::MAX as usize / es + 1];
+            for h in huge {
+                let r1 = catch_unwind(AssertUnwindSafe(|| v.try_reserve(h).is_err()));
+                match r1 {
+                    Err(_) => notes.push(format!("try_reserve({h}) on {} panicked instead of returning an error", $name)),
+                    Ok(false) => notes.push(format!("try_reserve({h}) on {} reported success", $name)),
+                    Ok(true) => {}
+                }
+                if v.len() != n { notes.push(format!("a failed reserve changed the length of {}", $name)); }
+            }
+        }};
+        (@mk $new:path, mutable, $b:ident) => { $new(&mut $b) };
+        (@mk $new:path, shared, $b:ident) => { $new(&$b) };
+    }
+    match r.below(6) {
+        0 => probe_other!("MutBumpVec<u64>", MutBumpVec<u64, &mut Bump>, MutBumpVec::new_in, mutable, 7u64, u64),
+        1 => probe_other!("MutBumpVecRev<u64>", MutBumpVecRev<u64, &mut Bump>, MutBumpVecRev::new_in, mutable, 7u64, u64),
+        2 => probe_other!("MutBumpVecRev<u8>", MutBumpVecRev<u8, &mut Bump>, MutBumpVecRev::new_in, mutable, 7u8, u8),
+        3 => probe_other!("MutBumpVec<u8>", MutBumpVec<u8, &mut Bump>, MutBumpVec::new_in, mutable, 7u8, u8),
+        4 => probe_other!("BumpString", bump_scope::BumpString<&Bump>, bump_scope::BumpString::new_in, shared, 'a', u8),
+        _ => probe_other!("MutBumpString", bump_scope::MutBumpString<&mut Bump>, bump_scope::MutBumpString::new_in, mutable, 'a', u8),
+    }
     notes
 }
 
@@ -621,7 +654,7 @@ fn main() {
     let kinds = ["bv", "mv", "fv", "bb", "rv"];
     let mut next_id: u32 = 0;
     for case in 0..cases {
-        if case % 500 == 0 {
+        if case % 200 == 0 {
             for m in overflow_probe(&mut r) { writeln!(w, "X colls bv reserve :: overflow: {m}").unwrap(); }
         }
         if case % 10 == 3 {
@@ -629,6 +662,9 @@ fn main() {
         }
         if case % 10 == 7 {
             for m in parts_probe(&mut r) { writeln!(w, "X colls parts probe :: {m}").unwrap(); }
+        }
+        if case % 10 == 5 {
+            for m in extras_probe(&mut r) { writeln!(w, "X colls extras probe :: {m}").unwrap(); }
         }
         let kind = r.pick(&kinds);
         let n = match r.below(8) { 0 => 0, 1 => 1, 2 => 2, _ => r.range(3, 12) as usize };
